@@ -278,6 +278,49 @@ def core_menu(cols, roles, depth, hist=None):
     return items
 
 
+def _fn_of(item):
+    e = list(item["ops"].values())[0] if item.get("ops") else None
+    return e[1] if e and e[0] in ("m", "f") else None
+
+
+def core_menu_q(cols, roles, depth, hist=None):
+    """quick-tier menu: the full core menu for every step but the first, which uses a thinner selection
+    (one representative per shape); the depth-2 state space is thin x full instead of full x full"""
+    if depth != 0:
+        return core_menu(cols, roles, depth, hist)
+    items = []
+    ext = extend_items(cols, roles)
+    items += ext[:3] + ext[4:6] + ext[-5:]
+    for w in window_items(cols, roles):
+        fn = _fn_of(w)
+        ordered = bool(w.get("order_by"))
+        if not ordered and fn in ("sum", "_size", "count") and not (list(w["ops"].values())[0][0] == "m" and list(w["ops"].values())[0][2][0] == "v"):
+            items.append(w)
+        elif ordered and (fn in ("cumsum", "shift") and not w.get("reverse")):
+            items.append(w)
+        elif ordered and fn == "_row_number":
+            items.append(w)
+    for p in project_items(cols, roles):
+        fn = _fn_of(p)
+        if len(p["ops"]) != 1 or fn in ("sum", "count", "_size") or len(p.get("group_by") or []) > 1:
+            items.append(p)
+    items += select_rows_items(cols, roles)[:4]
+    ci = column_items(cols, roles)
+    items += [c for c in ci if c["op"] != "select_columns"] + [c for c in ci if c["op"] == "select_columns"][:4]
+    for o in order_items(cols, roles):
+        if o["limit"] in (None, 1, 0) and (len(o["columns"]) > 1 or o["columns"] == order_items(cols, roles)[0]["columns"]):
+            items.append(o)
+    for j in join_items(cols, roles, depth):
+        b = j["b"]
+        if b is E1_HIST:
+            continue
+        if b is E4_HIST and j["jointype"] not in ("LEFT", "FULL"):
+            continue
+        items.append(j)
+    items += concat_items(cols, roles, depth)[:2]
+    return items
+
+
 # ---------------------------------------------------------------------------------------
 # role bookkeeping (explorer-side typing so menus stay well-typed)
 
@@ -372,6 +415,8 @@ def step_columns(st, cols, roles, states):
         b = st["b"]
         if "prefix" in b:
             bc, br = states[b["prefix"]]
+            for st2 in b.get("steps", []):
+                bc, br = step_columns(st2, bc, br, states)
         else:
             bc, br = result_roles(b)
         if op == "natural_join":
